@@ -363,7 +363,16 @@ def as_form(a, form):
     if form == "2d":
         # same elements as a 2-d array (the entry points return 1-d results for arr.size elements)
         return a.reshape(2, -1).copy() if (a.ndim == 1 and a.size % 2 == 0 and a.size >= 2) else a.reshape(1, -1).copy()
+    if form in ("2d-F", "2d-alt"):
+        # the same 2-d array in Fortran (column-major) MEMORY order: its elements in logical order are unchanged, a
+        # flattening that follows the memory is not.  "2d-alt": every other argument column-major, the rest row-major
+        b = as_form(a, "2d")
+        _ALT[0] += 1
+        return np.asfortranarray(b) if (form == "2d-F" or _ALT[0] % 2 == 1) else b
     raise ValueError(form)
+
+
+_ALT = [0]
 
 
 def in_child(fn):
@@ -1012,7 +1021,7 @@ def main(ctx):
             for sc in SCALES:
                 if not on_lattice(bins, sc, depth):
                     continue
-                for form in ("swapped", "strided", "list", "2d"):
+                for form in ("swapped", "strided", "list", "2d", "2d-F", "2d-alt"):
                     for (s1, s2) in (("base", "all"), ("anchor", "edges")):
                         bunits.append((depth, bins, sc, s1, s2, form, seed))
                 for (s1, s2) in (("one", "all"), ("anchor", "edges")):
@@ -1037,7 +1046,7 @@ def main(ctx):
     ctx.lattice("bincount", bunits, one_bincount, envstrict=True,
                 bounds=dict(bins=BINS, deep_bins=DEEPBINS, depths=sorted(set(u[0] for u in bunits)), scales=[str(s) for s in SCALES], set_pairs=ctx.pick(PAIRS_Q, PAIRS_T),
                             routes=["internal", "ids", "ids+rev", "ids+rev+minmax", "ids+numpy-rev+minmax",
-                                    "getbins=False"], forms=["native", "swapped", "strided", "list", "2d", "scalar1"]))
+                                    "getbins=False"], forms=["native", "swapped", "strided", "list", "2d", "2d-F (column-major memory)", "2d-alt (column- and row-major arguments mixed)", "scalar1"]))
 
     # ---- supplied ids / reverse indices in other dtypes, byte orders and strides
     def one_revform(case, rec):
